@@ -116,7 +116,8 @@ def gen_list_word_op(rng, spec):
         return {"op": "listop", "kind": kind, "name": name, "attr": attr, "method": "insert", "args": [rng.randint(0, len(cur) + 1), x]}
     if m in ("extend", "iadd"):
         k = rng.choice([0, 1, 2])
-        return {"op": "listop", "kind": kind, "name": name, "attr": attr, "method": m, "args": [[rng.choice(pool) for _ in range(k)]]}
+        return {"op": "listop", "kind": kind, "name": name, "attr": attr, "method": m,
+                "args": [[rng.choice(pool) for _ in range(k)], rng.choice([0, 0, 1, 2, 3])]}
     if m == "imul":
         return {"op": "listop", "kind": kind, "name": name, "attr": attr, "method": "imul", "args": [rng.choice([0, 1, 2])]}
     if m == "pop":
@@ -260,7 +261,11 @@ def shard(args):
             op = gen_list_word_op(rng, live.spec) if rng.random() < 0.7 else history.gen_link_edit(rng, live.spec)
             if op is None:
                 continue
-            label = op.get("method", op["op"]) + ":" + op.get("attr", "")
+            # the method as it appears in signatures: `+=` / `extend` fed by a one-shot iterable is named as such
+            mname = op.get("method", op["op"])
+            if mname in ("extend", "iadd") and len(op.get("args", [])) > 1 and op["args"][1]:
+                mname += "-from-one-shot-iterable"
+            label = mname + ":" + op.get("attr", "")
             noop = is_noop(live.spec, op)
             py = python_outcome(live.spec, op)
             if guarded and (noop or op.get("method") in ("remove", "imul", "iadd")):
@@ -295,15 +300,15 @@ def shard(args):
             if py != "ok":
                 # a plain list raises: the linked list must raise the same class and change nothing
                 if st == "ok":
-                    out["violations"].append({"signature": f"C16:no-exception:{op.get('method')}:{trig}", "detail": f"Python raises {py}", "replay": {"spec": spec, "ops": list(ops)}})
+                    out["violations"].append({"signature": f"C16:no-exception:{mname}:{trig}", "detail": f"Python raises {py}", "replay": {"spec": spec, "ops": list(ops)}})
                     break
             elif st == "err":
-                out["violations"].append({"signature": f"C16:raises:{op.get('method', op['op'])}:{trig}:{err}", "detail": f"{label}: the operation is legal on a Python list but raises {err}",
+                out["violations"].append({"signature": f"C16:raises:{mname}:{trig}:{err}", "detail": f"{label}: the operation is legal on a Python list but raises {err}",
                                           "replay": {"spec": spec, "ops": list(ops)}})
                 break
             bad = link_state_problems(live)
             if bad:
-                out["violations"].append({"signature": f"C16:{bad[0][0]}:{op.get('method', op['op'])}:{trig}", "detail": f"after {label}: {bad[0][1]}",
+                out["violations"].append({"signature": f"C16:{bad[0][0]}:{mname}:{trig}", "detail": f"after {label}: {bad[0][1]}",
                                           "replay": {"spec": spec, "ops": list(ops)}})
                 break
         # deletion guard and one-system rule on the final state
